@@ -143,7 +143,7 @@ End Image.
    data of 2 .. 2^24-1 bytes; and the limit leaves room for one scan byte in the first packet. *)
 Definition valid_image (max : N) (img : bytes) (s : pst) (data : bytes) (ty w h : N) (tabs : list bytes) : Prop :=
   jparse img = JOk s data /\ psof s = Some (ty, w, h) /\ pdri s = None /\ map snd (pqt s) = tabs /\
-  tabs_ok tabs /\ ty <= 63 /\ w mod 8 = 0 /\ w < 2048 /\ h mod 8 = 0 /\ h < 2048 /\
+  tabs_ok tabs /\ ty <= 1 /\ w mod 8 = 0 /\ w < 2048 /\ h mod 8 = 0 /\ h < 2048 /\
   2 <= nlen data /\ nlen data <= omax /\ hlen0 s < max.
 
 Lemma cont_spec_ext f g : (forall o, f o = g o) -> forall cs off, cont_spec f off cs = cont_spec g off cs.
@@ -158,7 +158,8 @@ Theorem roundtrip max seq img s data ty w h tabs d :
     rebuild ty w h tabs data = Some img' /\
     dec_run d ps = (d', repeat DMore (length ps - 1) ++ [DFrame img']) /\ dfrags d' = [] /\ dfsize d' = 0.
 Proof.
-  intros (Hp & Hs & Hdri & Hq & Ht & Hty & Hw1 & Hw2 & Hh1 & Hh2 & Hd2 & Hdm & Hmax).
+  intros (Hp & Hs & Hdri & Hq & Ht & Hty1 & Hw1 & Hw2 & Hh1 & Hh2 & Hd2 & Hdm & Hmax).
+  assert (Hty : ty <= 63) by lia.
   assert (Hl : hlen s = 8) by (unfold hlen; now rewrite Hdri).
   assert (Hl0 : hlen s < max) by (unfold hlen0 in Hmax; lia).
   unfold enc. rewrite Hp, (payloads_spec max s ty w h data Hs ltac:(lia) Hl0).
